@@ -196,13 +196,22 @@ Proof. exact sim_pg_delete_table. Qed.
 Print Assumptions C03_sim_pg_delete_table.
 Check C03_sim_pg_delete_table : forall s tn, hyp_delete_table s tn = true -> step_sim s (DeleteTable tn).
 
-(* _partial: the plain path only — no enum type to create, no back-fill sequence, re-normalisation promotes nothing *)
+(* _partial: no string-enum type to create (integer enums are covered), re-normalisation promotes nothing; this is the
+   single-statement path, the back-fill sequence is the next theorem *)
 Theorem C03_sim_pg_add_column_partial : forall s tn col fw,
   hyp_add_column s tn col fw = true -> step_sim s (AddColumn tn col fw).
 Proof. exact sim_pg_add_column. Qed.
 Print Assumptions C03_sim_pg_add_column_partial.
 Check C03_sim_pg_add_column_partial : forall s tn col fw,
   hyp_add_column s tn col fw = true -> step_sim s (AddColumn tn col fw).
+
+(* ADD COLUMN (nullable); UPDATE; ALTER COLUMN .. TYPE .., ALTER COLUMN .. SET NOT NULL *)
+Theorem C03_sim_pg_add_column_backfill_partial : forall s tn col fw,
+  hyp_add_column_backfill s tn col fw = true -> step_sim s (AddColumn tn col fw).
+Proof. exact sim_pg_add_column_backfill. Qed.
+Print Assumptions C03_sim_pg_add_column_backfill_partial.
+Check C03_sim_pg_add_column_backfill_partial : forall s tn col fw,
+  hyp_add_column_backfill s tn col fw = true -> step_sim s (AddColumn tn col fw).
 
 (* _partial: the plain path only — the column has no enum type, belongs to no constraint or index, no CHECK mentions
    it and no foreign key references it (outside K2, K3, K4, K5) *)
@@ -268,6 +277,9 @@ Example ex_modify_type : hyp_modify_type w_d2 "post" "user_id" (TNumeric 10 2) =
 Proof. vm_compute. reflexivity. Qed.
 Example ex_create_table_enum :
   hyp_create_table w_t "post" [icol "id"; ncol "st" w_status; ncol "st2" w_status; ncol "lvl" w_level] [pk_id] = true.
+Proof. vm_compute. reflexivity. Qed.
+Example ex_add_column_backfill :
+  hyp_add_column_backfill w_d2 "post" (mkCol "rank" (TSimple Integer) false None None None None None None) (Some "0") = true.
 Proof. vm_compute. reflexivity. Qed.
 (* a two-migration history every step of which falls under a proved lemma, hence (C03_Sim_history) runs to catalog_of *)
 Example ex_history :
